@@ -747,7 +747,7 @@ class Context(MetadataContextMixin, object):
                 except:
                     return [None, meta]
 
-            arguments = [to_arg(a) for a in arguments]
+            arguments = deepcopy([to_arg(a) for a in arguments])
 
         metadata = self.metadata()
         metadata["type_identifier"] = state.type_identifier
@@ -759,7 +759,7 @@ class Context(MetadataContextMixin, object):
             metadata["mimetype"] = state.mimetype()
 
         try:
-            cmd_metadata_d = cmd_metadata._asdict()
+            cmd_metadata_d = deepcopy(cmd_metadata._asdict())
         except:
             cmd_metadata_d = {}
         metadata["extended_commands"] = metadata.get("extended_commands", []) + [
